@@ -68,6 +68,38 @@ MUTATIONS = [
      ("        (self.0.last().copied().unwrap_or_default() & 1) > 0", "        (self.0.first().copied().unwrap_or_default() & 1) > 0"), r"c16_rank_probe_"),
     ("unicode_ranges_two_entries_swapped", "C17", "fontbe/src/os2.rs",
      ("    (0x0250, 0x02AF, 4),      // IPA Extensions\n    (0x02B0, 0x02FF, 5),      // Spacing Modifier Letters\n", "    (0x02B0, 0x02FF, 5),      // Spacing Modifier Letters\n    (0x0250, 0x02AF, 4),      // IPA Extensions\n"), r"c17_unicode_ranges_table_well_formed"),
+    ("plm_map_returns_previous_node", "C08", "fontdrasil/src/piecewise_linear_map.rs",
+     ("                self.to[first]\n", "                self.to[first.saturating_sub(1)]\n"), r"c08_plm_map_exact_at_nodes_"),
+    ("plm_reverse_zips_to_with_to", "C08", "fontdrasil/src/piecewise_linear_map.rs",
+     ("            .zip(self.from.iter().copied())\n            .collect();\n        PiecewiseLinearMap::new(mappings)", "            .zip(self.to.iter().copied())\n            .collect();\n        PiecewiseLinearMap::new(mappings)"), r"c08_plm_reverse_inverts_at_nodes_3"),
+    ("lexer_new_starts_at_1", "C13", "fea-rs/src/parse/lexer.rs",
+     ("            input,\n            pos: 0,", "            input,\n            pos: 1,"), r"verus_lexer_new"),
+    ("lexer_bump_always_advances", "C13", "fea-rs/src/parse/lexer.rs",
+     ("        self.pos += usize::from(next.is_some());", "        self.pos += 1;"), r"verus_lexer_bump"),
+    ("lexer_nth_off_by_one", "C13", "fea-rs/src/parse/lexer.rs",
+     ("            .get(self.pos + index)", "            .get(self.pos + index + 1)"), r"verus_lexer_nth"),
+    ("lexer_whitespace_looks_one_ahead", "C13", "fea-rs/src/parse/lexer.rs",
+     ("        while is_ascii_whitespace(self.nth(0)) {", "        while is_ascii_whitespace(self.nth(1)) {"), r"verus_lexer_whitespace"),
+    ("lexer_string_other_bytes_not_consumed", "C13", "fea-rs/src/parse/lexer.rs",
+     ("                EOF => break Kind::StringUnterminated,\n                _ => {\n                    self.bump();\n                }", "                EOF => break Kind::StringUnterminated,\n                _ => {}"), r"verus_lexer_string"),
+    ("lexer_number_hex_prefix_skips_two", "C13", "fea-rs/src/parse/lexer.rs",
+     ('            if b"xX".contains(&self.nth(0)) {\n                self.bump();\n                if self.nth(0).is_ascii_hexdigit() {', '            if b"xX".contains(&self.nth(0)) {\n                self.pos += 2;\n                if self.nth(0).is_ascii_hexdigit() {'), r"verus_lexer_number"),
+    ("lexer_decimal_digits_look_one_ahead", "C13", "fea-rs/src/parse/lexer.rs",
+     ("        while self.nth(0).is_ascii_digit() {", "        while self.nth(1).is_ascii_digit() {"), r"verus_lexer_eat_decimal_digits"),
+    ("lexer_hex_digits_look_one_ahead", "C13", "fea-rs/src/parse/lexer.rs",
+     ("        while self.nth(0).is_ascii_hexdigit() {", "        while self.nth(1).is_ascii_hexdigit() {"), r"verus_lexer_eat_hex_digits"),
+    ("lexer_octal_digits_look_one_ahead", "C13", "fea-rs/src/parse/lexer.rs",
+     ("        while matches!(self.nth(0), b'0'..=b'7') {", "        while matches!(self.nth(1), b'0'..=b'7') {"), r"verus_lexer_eat_octal_digits"),
+    ("lexer_cid_skips_a_byte", "C13", "fea-rs/src/parse/lexer.rs",
+     ("        self.eat_decimal_digits();\n        Kind::Cid", "        self.eat_decimal_digits();\n        self.pos += 1;\n        Kind::Cid"), r"verus_lexer_cid"),
+    ("lexer_glyph_class_name_skips_a_byte", "C13", "fea-rs/src/parse/lexer.rs",
+     ("        self.eat_ident();\n        Kind::NamedGlyphClass", "        self.eat_ident();\n        self.pos += 1;\n        Kind::NamedGlyphClass"), r"verus_lexer_glyph_class_name"),
+    ("lexer_ident_start_pos_wrong_slice", "C13", "fea-rs/src/parse/lexer.rs",
+     ("        let raw_token = &self.input.as_bytes()[start_pos..self.pos];", "        let raw_token = &self.input.as_bytes()[start_pos..self.pos + 1];"), r"verus_lexer_ident"),
+    ("lexer_hyphen_skips_a_byte", "C13", "fea-rs/src/parse/lexer.rs",
+     ("        if self.nth(0).is_ascii_digit() {\n            return self.number(false);\n        }\n\n        Kind::Hyphen", "        if self.nth(0).is_ascii_digit() {\n            return self.number(false);\n        }\n        self.pos += 1;\n        Kind::Hyphen"), r"verus_lexer_hyphen_or_minus"),
+    ("lexer_is_special_accepts_high_bytes", "C13", "fea-rs/src/parse/lexer.rs",
+     ("        || byte == 123\n        || byte == 125", "        || byte == 123\n        || byte == 125\n        || byte >= 200"), r"verus_lexer_is_special"),
     ("rank_shift_carry_into_bit_62", "C16", "fontir/src/feature_variations.rs",
      ("            *val |= carry_bit << 63;", "            *val |= carry_bit << 62;"), r"c16_rank_shift_"),
     ("rank_bitor_assign_front_aligned", "C16", "fontir/src/feature_variations.rs",
@@ -119,6 +151,8 @@ def main() -> int:
                 continue
             f.write_text(text.replace(old, new))
             env = dict(os.environ, FV_REPO=str(mut_repo), FV_OUT=str(root / "out"))
+            if os.environ.get("FV_SELFTEST_NO_COMPANIONS"):
+                env["FV_NO_ON_DEMAND"] = "1"
             if args.keep_scratch:
                 env["FV_SCRATCH"] = args.keep_scratch
             t0 = time.time()
